@@ -310,6 +310,10 @@ def step_check(root, tier, history, op):
         dirty = ctx.dirty or op[1] in INDEX_EDITS
         return [], state_key(las, None, dirty, ())
     cfg = cfgs[op[1]]
+    # a bystander: another LASFile built from scratch in the same process, never written - it must not notice the write
+    bystander = lasio.LASFile()
+    bystander.append_curve("DEPT", np.array([7.0, 8.0]))
+    by_before = snapshot(bystander)
     before = snapshot(las)
     try:
         text = do_write(las, cfg)
@@ -321,6 +325,9 @@ def step_check(root, tier, history, op):
             return [], None
         return [viol("write-raises", root, tier, history, op, "write succeeds", "%s: %s" % (type(e).__name__, str(e)[:150]))], None
     after = snapshot(las)
+    if snapshot(bystander) != by_before:
+        vio.append(viol("write-changed-another-object", root, tier, history, op, "a LASFile that was not written keeps its header and data",
+                        canon.diff_tags(by_before, snapshot(bystander))))
     # (a) frame
     bad = frame_diff(before, after, "wrap" in cfg)
     if bad:
